@@ -121,8 +121,8 @@ Proof.
       apply mem_ctx_In in H. congruence.
 Qed.
 
-Lemma lookup_table m k : lookup k (table m) = if m then option_map upper (spec_ctx k) else spec_ctx k.
-Proof. destruct (table_total k) as [H1 H2]. destruct m; cbn [table]; auto. Qed.
+Lemma lookup_table m k : lookup k (table_of taps0 m) = if m then option_map upper (spec_ctx k) else spec_ctx k.
+Proof. destruct (table_total k) as [H1 H2]. destruct m; cbn [table_of taps0 tp_meth tp_unmeth]; auto. Qed.
 
 (* ------------------------------------------------------------------ specification of a call letter *)
 Definition ref_at (ref : list Z) (i : Z) : option Z := if i <? 0 then None else nth_error ref (Z.to_nat i).
@@ -278,7 +278,7 @@ Lemma symbol_spec cached ref pos base obs :
   base = cC \/ base = cG -> 0 <= pos ->
   symbol cached ref pos base obs = spec_letter ref pos base (upper obs).
 Proof.
-  intros Hb Hpos. unfold symbol, spec_letter, context.
+  intros Hb Hpos. unfold symbol, symbol_t, spec_letter, context.
   destruct Hb as [-> | ->].
   - (* reference C : forward triplet *)
     change (cC =? cC) with true. cbn iota.
